@@ -445,6 +445,9 @@ def write_evidence(prop, tier, seed, level, coverage, wall_s, violations, assump
     ev = dict(property_id=prop, tier=tier, seed=seed, level=level, coverage=coverage,
               assumptions=assumptions, wall_s=round(wall_s, 2), violations=violations)
     p = os.path.join(VERIF, 'evidence', prop + '.json')
+    if os.path.realpath(REPO) != '/repo':
+        # a development run against a scratch worktree ($VERIF_REPO, e.g. a seeded change): evidence describes /repo only
+        p = os.path.join(OUT, 'evidence_scratch_%s.json' % prop)
     with open(p + '.tmp', 'w') as f:
         json.dump(ev, f, indent=1)
     os.replace(p + '.tmp', p)
